@@ -96,16 +96,19 @@ pub fn run(args: &[&str]) -> String {
         for (name, r) in [("serde", &via_serde), ("FromStr", &via_fromstr)] {
           match r {
             Err(_) => return Some(format!("parse-paths-differ:{} panics on {:?}", name, s)),
-            Ok(v) => {
-              let same = match (v.as_ref(), parsed) {
-                (None, None) => true,
-                (Some(a), Some(b)) => a == b && a.to_unix() == b.to_unix() && a.to_rfc3339() == b.to_rfc3339() && a.cmp(b) == std::cmp::Ordering::Equal,
-                _ => false,
-              };
-              if !same {
-                return Some(format!("parse-paths-differ:{} gives {:?} for {:?}, parse gives {:?}", name, v.as_ref().map(|t| t.to_rfc3339()), s, parsed.map(|t| t.to_rfc3339())));
+            // what another parsing entry point accepts must itself satisfy the property, and be the same instant as
+            // `parse` yields when both accept
+            Ok(Some(a)) => {
+              if let Some(f) = oracle(a) {
+                return Some(format!("{} (value accepted by {})", f, name));
+              }
+              if let Some(b) = parsed {
+                if !(a == b && a.to_unix() == b.to_unix() && a.to_rfc3339() == b.to_rfc3339() && a.cmp(b) == std::cmp::Ordering::Equal) {
+                  return Some(format!("parse-paths-differ:{} gives {:?} for {:?}, parse gives {:?}", name, a.to_rfc3339(), s, b.to_rfc3339()));
+                }
               }
             }
+            Ok(None) => {}
           }
         }
         None
